@@ -8,6 +8,7 @@ from ..gen_surf import MACRO_FAMILIES, macrobody
 from ..judge import convert_deck, crash_violation, region_agreement, summarise
 
 ID = 'C03'
+UPSTREAM_DECKS = True
 LEVEL = 'exploration'
 RULE = ('one generated macrobody card per case (every kind x family: aligned, '
         'rotated, left-handed, both RHP/REC/ELL parameterisations, ARB '
